@@ -1325,6 +1325,16 @@ class Engine(object):
         if self._schema_updated:
           self.assert_schema_consistent()
 
+      # If needed, rebuild dependencies for trigger formulas.
+      self._maybe_update_trigger_dependencies()
+
+      # Note that recalculations and auto-removals get included after processing all useractions.
+      self._bring_all_up_to_date()
+
+      # Apply any triggered record removals. If anything does get removed, recalculate what's needed.
+      while self.docmodel.apply_auto_removes():
+        self._bring_all_up_to_date()
+
     except Exception as e:
       # Save full exception info, so that we can rethrow accurately even if undo also fails.
       exc_info = sys.exc_info()
@@ -1351,16 +1361,6 @@ class Engine(object):
       except Exception:
         log.error("Error recalculating after revert on failure: %s", traceback.format_exc())
       raise
-
-    # If needed, rebuild dependencies for trigger formulas.
-    self._maybe_update_trigger_dependencies()
-
-    # Note that recalculations and auto-removals get included after processing all useractions.
-    self._bring_all_up_to_date()
-
-    # Apply any triggered record removals. If anything does get removed, recalculate what's needed.
-    while self.docmodel.apply_auto_removes():
-      self._bring_all_up_to_date()
 
     self.out_actions.flush_calc_changes()
     self.out_actions.check_sanity()
